@@ -1,46 +1,74 @@
 --------------------------- MODULE MC_RestorePlan ---------------------------
 (***************************************************************************)
-(* R1 for C08 / C15: TLC enumerates every file set up to the bound as an    *)
-(* initial state (sharded by Part/Parts so that many TLC processes run in   *)
-(* parallel) and checks, for every request (each target TXID, latest, each  *)
-(* timestamp):  Planner (transcription of CalcRestorePlan) |= declarative   *)
-(* spec of RestorePlan.tla.                                                 *)
+(* R1 for C08 / C15: TLC enumerates every file set up to the bound and      *)
+(* checks, for every request (each target TXID, latest, each timestamp):    *)
+(*   Planner (transcription of CalcRestorePlan) |= declarative spec         *)
+(* of RestorePlan.tla.                                                      *)
+(* Two ways to spread the enumeration over the cores:                       *)
+(*  - Part/Parts: a TLC process takes the file sets whose key set hashes to *)
+(*    Part (16 processes side by side);                                     *)
+(*  - Fanout = FALSE: every file set of the shard is an INITIAL state (TLC  *)
+(*    computes initial states with one thread);                             *)
+(*    Fanout = TRUE: root state -> one group state per "top" key -> the     *)
+(*    file sets whose largest key is that key, so that the workers of one   *)
+(*    process (one warmed-up JVM) each expand a group.  Same file sets:     *)
+(*    distinct states = file sets (+ 1 root + |Keys| groups when fanned).   *)
 (***************************************************************************)
 EXTENDS RestorePlan
 
 CONSTANTS N,          \* TXIDs 1..N
           MaxFiles,   \* file sets with at most this many files
           MaxTs,      \* file timestamps 1..MaxTs, request timestamps 1..MaxTs+1
-          Part, Parts \* shard: this TLC process takes the file sets with Shard(keys) = Part
+          Part, Parts,\* shard: this TLC process takes the file sets with Shard(keys) = Part
+          Fanout      \* see above
 
 Keys == {k \in Levels \X (1..N) \X (1..N) : k[2] <= k[3] /\ (k[1] = SnapLvl => k[2] = 1)}
-Weight(k) == k[1] * N * N + (k[2] - 1) * N + (k[3] - 1)
+Weight(k) == k[1] * N * N + (k[2] - 1) * N + (k[3] - 1)          \* injective on Keys: a total order
 Shard(KS) == FoldSet(LAMBDA k, acc : acc + Weight(k), 0, KS) % Parts
 
-\* res / reach memoise Planner's result and the declarative reach set per request (functions of `files`; they do
-\* not add states: the number of initial states = the number of file sets of this shard)
-VARIABLES files, res, reach
-vars == <<files, res, reach>>
+\* ph: -1 = a file set (files/res/reach meaningful), 0 = root, w + 1 = group of the key of weight w.
+\* res / reach memoise Planner's result and the declarative reach set per request (functions of `files`).
+VARIABLES ph, files, res, reach
+vars == <<ph, files, res, reach>>
 Reqs == {<<tx, 0>> : tx \in 0..N} \cup {<<0, T>> : T \in 1..(MaxTs + 1)}
+IsSet == ph = -1
+
+\* v = the state of file set fs
+SetState(fs, vph, vfiles, vres, vreach) ==
+  /\ vph = -1 /\ vfiles = fs
+  /\ \E seqs \in {SeqsOf(fs)} : vres = [q \in Reqs |-> PlannerS(seqs, q[1], q[2])]
+  /\ vreach = [q \in Reqs |-> ReachSet(fs, q[1], q[2])]
+\* every file set over the key set KS
+Stamped(KS) == {{File(k[1], k[2], k[3], tf[k]) : k \in KS} : tf \in [KS -> 1..MaxTs]}
+
 Init ==
-  /\ \E n \in 0..MaxFiles : \E KS \in kSubset(n, Keys) :
-       /\ Shard(KS) = Part
-       /\ \E tf \in [KS -> 1..MaxTs] : files = {File(k[1], k[2], k[3], tf[k]) : k \in KS}
-  /\ res = LET seqs == SeqsOf(files) IN [q \in Reqs |-> PlannerS(seqs, q[1], q[2])]
-  /\ reach = [q \in Reqs |-> ReachSet(files, q[1], q[2])]
-Next == UNCHANGED vars
+  IF Fanout THEN ph = 0 /\ files = {} /\ res = <<>> /\ reach = <<>>
+  ELSE \E n \in 0..(IF Cardinality(Keys) < MaxFiles THEN Cardinality(Keys) ELSE MaxFiles) : \E KS \in kSubset(n, Keys) :
+          /\ Shard(KS) = Part
+          /\ \E fs \in Stamped(KS) : SetState(fs, ph, files, res, reach)
+Next ==
+  \/ /\ Fanout /\ ph = 0
+     /\ \/ \E k \in Keys : MaxFiles > 0 /\ ph' = Weight(k) + 1 /\ UNCHANGED <<files, res, reach>>
+        \/ Shard({}) = Part /\ SetState({}, ph', files', res', reach')
+  \/ /\ Fanout /\ ph > 0
+     /\ \E top \in {k \in Keys : Weight(k) = ph - 1} :
+        \E lower \in {{k \in Keys : Weight(k) < ph - 1}} :
+        \E n \in 0..(IF Cardinality(lower) < MaxFiles - 1 THEN Cardinality(lower) ELSE MaxFiles - 1) :
+        \E KS0 \in kSubset(n, lower) :
+          /\ Shard(KS0 \cup {top}) = Part
+          /\ \E fs \in Stamped(KS0 \cup {top}) : SetState(fs, ph', files', res', reach')
 Spec == Init /\ [][Next]_vars
 
 TsReqs == 1..(MaxTs + 1)
-Sound          == \A q \in Reqs : SoundP(files, q[1], q[2], res[q])
-CompleteTx     == \A q \in Reqs : CompleteTxP(q[1], q[2], res[q], reach[q])
-CompleteLatest == \A q \in Reqs : CompleteLatestP(files, q[1], q[2], res[q], reach[q])
-GapReported    == \A q \in Reqs : GapReportedP(files, q[1], q[2], res[q])
-FurthestLatest == \A q \in Reqs : FurthestLatestP(q[1], q[2], res[q], reach[q])
+Sound          == IsSet => \A q \in Reqs : SoundP(files, q[1], q[2], res[q])
+CompleteTx     == IsSet => \A q \in Reqs : CompleteTxP(q[1], q[2], res[q], reach[q])
+CompleteLatest == IsSet => \A q \in Reqs : CompleteLatestP(files, q[1], q[2], res[q], reach[q])
+GapReported    == IsSet => \A q \in Reqs : GapReportedP(files, q[1], q[2], res[q])
+FurthestLatest == IsSet => \A q \in Reqs : FurthestLatestP(q[1], q[2], res[q], reach[q])
 \* C15 clauses
-TsExcluded     == \A T \in TsReqs : TsExcludedP(T, res[<<0, T>>].plan)
-TsFurthest     == \A q \in Reqs : FurthestTsP(q[1], q[2], res[q], reach[q])
-TsMonotone     == \A T1 \in TsReqs : \A T2 \in T1..(MaxTs + 1) : MonoP(res[<<0, T1>>], res[<<0, T2>>])
+TsExcluded     == IsSet => \A T \in TsReqs : TsExcludedP(T, res[<<0, T>>].plan)
+TsFurthest     == IsSet => \A q \in Reqs : FurthestTsP(q[1], q[2], res[q], reach[q])
+TsMonotone     == IsSet => \A T1 \in TsReqs : \A T2 \in T1..(MaxTs + 1) : MonoP(res[<<0, T1>>], res[<<0, T2>>])
 \* no request makes the planner return anything but a plan / gap / notfound
-ErrKinds       == \A q \in Reqs : res[q].err \in {"none", "gap", "notfound"}
+ErrKinds       == IsSet => \A q \in Reqs : res[q].err \in {"none", "gap", "notfound"}
 =============================================================================
